@@ -4,11 +4,12 @@ SPECIFICATION Spec
 CONSTANTS Names <- NamesSmall
           Types <- TypesAll
           Bodies <- BodiesAll
+          Readers <- ReadPlain
           Modes <- ModesAll
           Mtimes <- MtimesAll
           MaxNodes = 2
           MaxDepth = 2
           MinNodes = 1
           Devs = {}
-INVARIANTS TypeOK RoundTrip ShallowWalk EscapedSafe Emit
+INVARIANTS TypeOK RoundTrip StreamFinite ShallowWalk EscapedSafe Emit
 CHECK_DEADLOCK FALSE
